@@ -79,19 +79,26 @@ def find_list(x, head):
 
 
 def thread_argument(line):
-    """the thread-count argument of the emitted scan call (last argument of lipe-scan), or None"""
+    """the thread-count argument of the emitted scan call (last argument of lipe-scan) of every rendering
+    of the observation, or None"""
     i = line.find(" COK ")
     if i < 0:
         return None
     parts = line[i:].split(" | ")
     if len(parts) < 2:
         return None
-    try:
-        forms = SX.read_all(_unesc(parts[1]))
-    except Exception:
-        return None
-    call = find_list(forms, "lipe-scan") if forms else None
-    return canon(call[-1]) if call else None
+    out = []
+    for text in parts[1:]:
+        if text.startswith("IOMAP"):
+            out.append(text)
+            continue
+        try:
+            forms = SX.read_all(_unesc(text))
+        except Exception:
+            forms = None
+        call = find_list(forms, "lipe-scan") if forms else None
+        out.append(canon(call[-1]) if call else "?")
+    return ",".join(out)
 
 
 # ------------------------------------------------------------------ evidence from the implementation's own answer
